@@ -152,11 +152,11 @@ def run_trace_tlc(work, spec, trace_file, kvcfg, tag, cfgname=None, timeout=1800
     return dict(verdicts=verdicts, consumed=consumed, total=total, states=states, mstats=mstats)
 
 
-def validate_traces(work, spec, trace_files, kvcfg, tag="v", extra_env=None):
+def validate_traces(work, spec, trace_files, kvcfg, tag="v", extra_env=None, cfgname=None):
     """Validates every trace file (one TLC per file, in parallel)."""
     res = []
     with ThreadPoolExecutor(max_workers=max(1, min(len(trace_files), NCPU // 2))) as ex:
-        futs = [ex.submit(run_trace_tlc, work, spec, f, kvcfg, "%s%d" % (tag, i), None, 1800, extra_env)
+        futs = [ex.submit(run_trace_tlc, work, spec, f, kvcfg, "%s%d" % (tag, i), cfgname, 1800, extra_env)
                 for i, f in enumerate(trace_files)]
         for f in futs:
             res.append(f.result())
